@@ -35,6 +35,7 @@ var verifHarnessDialect = &dialect.Dialect{
 		&frame.MessageVerifString{},
 		&frame.MessageVerifExt{},
 		&frame.MessageVerifEnumArr{},
+		&frame.MessageVerifMessageBox{},
 	},
 }
 
